@@ -13,6 +13,9 @@ PROP = 'C10'
 LEVEL = 'fault_enumeration'
 ASSUMPTIONS = ['strings that decode to fewer than five bytes have no version+checksum reading and must be refused with a Base58Error (DESIGN.md 7)']
 OUTSIDE = ['0', 'O', 'I', 'l', ' ', '+', 'é', '\n', '\t']
+# non-ASCII characters: ones whose case mapping lands in ASCII, whose code point modulo 256 is an alphabet character, digits
+# of other scripts, an astral character
+UNICODE = ['\u212a', '\u0130', '\u0131', '\u017f', '\u0141', '\u0142', '\u20bf', '\uff11', '\uff51', '\u0261', '\u03a1', '\U0001f600', '\u00b9', '\u2460', '\u0661', '\u00df', '\ufb01']
 
 
 def bounds(tier):
@@ -135,9 +138,13 @@ class InvalidChars(Family):
                     yield o + a + b
                     yield a + o + b
                     yield a + b + o
+        for o in UNICODE + [chr(0x100 + ord(c)) for c in R.ALPHABET[::3]] + [chr(0x2100 + ord(c)) for c in R.ALPHABET[::7]]:
+            yield o
+            yield '2' + o
+            yield o + '2'
         # inside a realistic address, at every position
         base = '1AGNa15ZQXAZUgFiqJ2i7Z2DPU2J6hW62i'
-        for o in OUTSIDE:
+        for o in OUTSIDE + UNICODE + [chr(0x100 + ord(c)) for c in base[::4]]:
             for p in range(len(base) + 1):
                 yield base[:p] + o + base[p:]
                 if p < len(base):
@@ -162,6 +169,32 @@ class InvalidChars(Family):
             if bad:
                 raise Viol('%s(%r) accepted a character outside the alphabet' % (name, s), 'InvalidBase58Error', repr(r)[:80])
         return ('invalid' if bad else 'clean'), bad
+
+
+class StructuredStrings(Family):
+    """strings of length 4..11 over {'1', '2', 'z'}: long runs of the zero digit in leading, interior and trailing
+    positions (group-wise conversions drop or misplace all-zero groups), through decode . encode and against the reference"""
+    name = 'zero_digit_runs'
+    nontrivial_rule = "string contains an interior run of '1'"
+
+    def shards(self, tier):
+        return [(l, a) for l in range(4, 12 if tier == 'quick' else 14) for a in '12z']
+
+    def cases(self, shard, tier):
+        l, a = shard
+        for rest in itertools.product('12z', repeat=l - 1):
+            yield a + ''.join(rest)
+
+    def check(self, s):
+        B = _lib()
+        want = R.decode(s)
+        got = B.decode(s)
+        if bytes(got) != want:
+            raise Viol('base58.decode(%r)' % s, want, bytes(got))
+        back = B.encode(got)
+        if back != s:
+            raise Viol('encode(decode(%r))' % s, s, back)
+        return 'ok', '1' in s.strip('1')
 
 
 def classify(B, s):
@@ -214,6 +247,10 @@ class CheckRoundTrip(Family):
         want = R.check_encode(v, payload)
         if s != want:
             raise Viol('str(CBase58Data.from_bytes(%d-byte payload, version %d))' % (l, v), want, s)
+        # another object with the same payload and class but a different version must print its own version
+        other = B.CBase58Data.from_bytes(payload, (v + 111) % 256)
+        if str(other) != R.check_encode((v + 111) % 256, payload) or str(obj) != want or str(other) != R.check_encode((v + 111) % 256, payload):
+            raise Viol('text of a second object with the same payload and version %d' % ((v + 111) % 256), R.check_encode((v + 111) % 256, payload), str(other))
         back = B.CBase58Data(s)
         if back.nVersion != v or bytes(back) != payload or back.to_bytes() != payload:
             raise Viol('CBase58Data(str(x)) does not return the same version and payload', (v, payload), (back.nVersion, bytes(back)))
@@ -323,4 +360,4 @@ class ShortPayloads(Family):
 
 
 def families(tier):
-    return [EncodeBytes(), DecodeStrings(), InvalidChars(), CheckRoundTrip(), SingleFaults(), DoubleFaults() if tier == 'thorough' else None, ShortPayloads()]
+    return [EncodeBytes(), DecodeStrings(), StructuredStrings(), InvalidChars(), CheckRoundTrip(), SingleFaults(), DoubleFaults() if tier == 'thorough' else None, ShortPayloads()]
